@@ -454,7 +454,7 @@ def check(ck):
         n_norm = 0
         for d in ds:
             dp = fa.deps(d.value, d.node)
-            if "call:normalize" in dp and ("param:" + src) in dp:
+            if ("call:normalize" in dp or ("call:_decode" in dp and "call:_encode" in dp)) and ("param:" + src) in dp:
                 n_norm += 1
             elif fa.xnorm(d.value, d.node) not in EMPTY:
                 return False
@@ -483,11 +483,11 @@ def check(ck):
     ck.ob(R3, ini.key(None, "effective-after-normalise"), okE, "effective kwargs are computed from the normalised fields" if okE else
           "effective_kwargs is computed before / without the normalised args and kwargs", ini.where())
 
-    def mutations(d):
+    def mutations(fa_, d):
         """statements that change the mapping created by definition d: [(stmt, node ids)]"""
         out = []
-        for s in ini.stmts((ast.Assign, ast.AugAssign, ast.Expr, ast.Delete)):
-            ids = ini.nodes(s)
+        for s in fa_.stmts((ast.Assign, ast.AugAssign, ast.Expr, ast.Delete)):
+            ids = fa_.nodes(s)
             if not ids:
                 continue
             tg = []
@@ -499,11 +499,11 @@ def check(ck):
                 tg = [t.value for t in s.targets if isinstance(t, ast.Subscript)]
             elif isinstance(s.value, ast.Call) and A.call_attr(s.value) in ("update", "setdefault", "pop", "clear", "popitem") and A.call_recv(s.value) is not None:
                 tg = [A.call_recv(s.value)]
-            if any(same_def(origin(ini, t, ids[0]), d) for t in tg):
+            if any(same_def(origin(fa_, t, ids[0]), d) for t in tg):
                 out.append((s, ids))
         return out
 
-    ek_muts = mutations(ek) if ek is not None else []
+    ek_muts = mutations(ini, ek) if ek is not None else []
     okC = fl.hash_call is not None and hk is not None and ek is not None
     if okC:
         src = is_copy_of(hk.value)
@@ -514,21 +514,33 @@ def check(ck):
         okC = okC and not any(set(ids) & after for (s, ids) in ek_muts)
     ck.ob(R3, ini.key(None, "hash-after-effective"), bool(okC), "the hash is computed from the effective kwargs (+ context args)" if okC else
           "arg_hash is not computed after effective_kwargs / effective_kwargs_with_context_args", ini.where())
-    # ---- how the effective kwargs are bound (the statements may live in a helper or in the constructor itself)
-    CE_Q = FRA + "._compute_effective_kwargs"
-    where_ce = ini.where(ek.stmt) if ek is not None and ek.stmt is not None else ini.where()
-    ck.ob(R3, CE_Q + "::returns-result", ek is not None, "the bound mapping is returned" if ek is not None else "the bound mapping is not what is returned", where_ce)
-    self_ref = ast.parse("self.fn_reference", mode="eval").body
-    REF = ftext(ini, self_ref, EXIT) if ek is None else ftext(ini, self_ref, ek.node)
-    ok1 = False
+    # ---- how the effective kwargs are bound (the statements may live in a helper or in the constructor itself;
+    # a helper that could not be flattened into the constructor is looked at on its own)
+    bfa, bek = ini, ek
     if ek is not None:
-        s0 = is_copy_of(ek.value)
-        ok1 = s0 is not None and ftext(ini, s0, ek.node) == REF + ".partial_kwargs"
+        v_ = strip_cast(ek.value)
+        if isinstance(v_, ast.Call) and isinstance(v_.func, ast.Attribute) and A.norm(v_.func.value) == "self" and not v_.args and not v_.keywords:
+            helper = ck.repo.find_method(ini.fi.cls, v_.func.attr)
+            if helper is not None and helper.node is not ini.fi.node:
+                hfa = FA(ck, helper)
+                os_ = [origin(hfa, r.value, hfa.nodes(r)[0]) for r in hfa.returns() if hfa.nodes(r) and r.value is not None]
+                if os_ and all(same_def(os_[0], o) for o in os_):
+                    bfa, bek = hfa, os_[0]
+    ek_muts = mutations(bfa, bek) if bek is not None else []
+    CE_Q = FRA + "._compute_effective_kwargs"
+    where_ce = bfa.where(bek.stmt) if bek is not None and bek.stmt is not None else bfa.where()
+    ck.ob(R3, CE_Q + "::returns-result", bek is not None, "the bound mapping is returned" if bek is not None else "the bound mapping is not what is returned", where_ce)
+    self_ref = ast.parse("self.fn_reference", mode="eval").body
+    REF = ftext(bfa, self_ref, bfa.cfg.exit) if bek is None else ftext(bfa, self_ref, bek.node)
+    ok1 = False
+    if bek is not None:
+        s0 = is_copy_of(bek.value)
+        ok1 = s0 is not None and ftext(bfa, s0, bek.node) == REF + ".partial_kwargs"
     ck.ob(R3, CE_Q + "::starts-from-partial-kwargs", ok1, "effective kwargs start from a copy of the partial kwargs" if ok1 else
           "effective kwargs do not start from a copy of the reference's partial kwargs", where_ce)
 
     def is_ek(e, at):
-        return ek is not None and same_def(origin(ini, e, at), ek)
+        return bek is not None and same_def(origin(bfa, e, at), bek)
 
     pos_bind = []   # (names expr, values expr, node, stmt)
     kw_merge = []   # (source expr, node, stmt)
@@ -537,7 +549,7 @@ def check(ck):
         at = ids[0]
         if isinstance(s, ast.Assign) and len(s.targets) == 1 and isinstance(s.targets[0], ast.Subscript):
             K, V = s.targets[0].slice, s.value
-            loop = ini.enclosing(s, (ast.For, ast.While))
+            loop = bfa.enclosing(s, (ast.For, ast.While))
             done = False
             if isinstance(loop, ast.For) and not loop.orelse:
                 it, tg = strip_cast(loop.iter), loop.target
@@ -590,19 +602,19 @@ def check(ck):
 
     pos_bind = [(unsliced(N), unsliced(S), at, s) for (N, S, at, s) in pos_bind]
     for (N, S, at, s) in pos_bind:
-        nt, vt = ftext(ini, N, at), ftext(ini, S, at)
-        if vt == ftext(ini, self_args, at):
+        nt, vt = ftext(bfa, N, at), ftext(bfa, S, at)
+        if vt == ftext(bfa, self_args, at):
             rem = (N, at, s)
             nt = "<remaining>"
         pairs.add((nt, vt))
-    ok2 = rem is not None and pairs == {(REF + ".parameter_names", REF + ".partial_args"), ("<remaining>", ftext(ini, self_args, rem[1]))}
+    ok2 = rem is not None and pairs == {(REF + ".parameter_names", REF + ".partial_args"), ("<remaining>", ftext(bfa, self_args, rem[1]))}
     ck.ob(R3, CE_Q + "::positional-by-name", ok2, "partial and positional args are bound to parameter names in order" if ok2 else
           "positional arguments are not bound as result[names[i]] = values[i]: %s" % sorted(pairs), where_ce)
     # the names the call's positional arguments go to: the parameters not yet bound, in signature order
     ok3 = False
     if rem is not None:
         N, at, s_args = rem
-        rd = origin(ini, N, at)
+        rd = origin(bfa, N, at)
         comp, cat = (strip_cast(rd.value), rd.node) if rd is not None else (strip_cast(N), at)
         while isinstance(comp, ast.Call) and isinstance(comp.func, ast.Name) and comp.func.id in ("list", "tuple") and len(comp.args) == 1 and not comp.keywords:
             comp = strip_cast(comp.args[0])
@@ -620,27 +632,27 @@ def check(ck):
         if isinstance(comp, (ast.ListComp, ast.GeneratorExp)) and len(comp.generators) == 1 and isinstance(comp.generators[0].target, ast.Name):
             g_ = comp.generators[0]
             tv = g_.target.id
-            ok3 = A.norm(comp.elt) == tv and ftext(ini, g_.iter, cat) == REF + ".parameter_names" and len(g_.ifs) == 1 and unbound_test(g_.ifs[0], tv, cat)
+            ok3 = A.norm(comp.elt) == tv and ftext(bfa, g_.iter, cat) == REF + ".parameter_names" and len(g_.ifs) == 1 and unbound_test(g_.ifs[0], tv, cat)
         elif rd is not None and A.norm(comp) in ("[]", "list()"):
             # for name in parameter_names: if name not in result: remaining.append(name)
-            apps = [c for c in ini.calls("append") if ini.nodes(c) and A.call_recv(c) is not None and same_def(origin(ini, A.call_recv(c), ini.nodes(c)[0]), rd)]
+            apps = [c for c in bfa.calls("append") if bfa.nodes(c) and A.call_recv(c) is not None and same_def(origin(bfa, A.call_recv(c), bfa.nodes(c)[0]), rd)]
             if len(apps) == 1 and len(apps[0].args) == 1 and isinstance(apps[0].args[0], ast.Name):
                 tv = apps[0].args[0].id
-                st = ini.stmt_of(apps[0])
-                loop = ini.enclosing(st, (ast.For, ast.While))
-                gi = ini.enclosing(st, ast.If)
+                st = bfa.stmt_of(apps[0])
+                loop = bfa.enclosing(st, (ast.For, ast.While))
+                gi = bfa.enclosing(st, ast.If)
                 ok3 = isinstance(loop, ast.For) and isinstance(loop.target, ast.Name) and loop.target.id == tv and not loop.orelse \
                     and A.sig_stmts(loop.body) == [gi] and gi is not None and not gi.orelse and A.sig_stmts(gi.body) == [st] \
-                    and ftext(ini, loop.iter, ini.nodes(st)[0]) == REF + ".parameter_names" and unbound_test(gi.test, tv, ini.nodes(st)[0])
-                cat = ini.nodes(st)[0]
+                    and ftext(bfa, loop.iter, bfa.nodes(st)[0]) == REF + ".parameter_names" and unbound_test(gi.test, tv, bfa.nodes(st)[0])
+                cat = bfa.nodes(st)[0]
         # taken after the partial arguments are bound
-        ok3 = ok3 and not any(pn in ini.cfg.reach([cat], include_start=False) for pn in part_nodes if pn != cat)
+        ok3 = ok3 and not any(pn in bfa.cfg.reach([cat], include_start=False) for pn in part_nodes if pn != cat)
     ck.ob(R3, CE_Q + "::remaining-names", ok3, "positional args fill the parameters not yet bound, in order" if ok3 else
           "remaining parameter names are not [name for name in parameter_names if name not in result]", where_ce)
-    ok4 = len(kw_merge) == 1 and ftext(ini, kw_merge[0][0], kw_merge[0][1]) == ftext(ini, self_kwargs, kw_merge[0][1])
+    ok4 = len(kw_merge) == 1 and ftext(bfa, kw_merge[0][0], kw_merge[0][1]) == ftext(bfa, self_kwargs, kw_merge[0][1])
     if ok4:
         # kwargs are applied last: no positional binding after the merge
-        after = ini.cfg.reach(ini.nodes(kw_merge[0][2]), include_start=False)
+        after = bfa.cfg.reach(bfa.nodes(kw_merge[0][2]), include_start=False)
         ok4 = not any(at_ in after for (N_, S_, at_, s_) in pos_bind) and not odd
     ck.ob(R3, CE_Q + "::kwargs-last", ok4, "keyword arguments are applied last" if ok4 else
           "keyword arguments are not merged last with result.update(self.kwargs)", where_ce)
